@@ -29,6 +29,9 @@ def builtin(name):
                 'AssertionError', 'NotImplementedError', 'RuntimeError', 'StopIteration', 'KeyboardInterrupt',
                 'Exception', 'OSError', 'FileNotFoundError'):
         return ExcClass(name)
+    if name == 'EMPTY_DICT':
+        from .interp import EMPTY_DICT_U
+        return Opq(EMPTY_DICT_U)
     if name == 'True':
         return True
     if name == 'False':
@@ -422,6 +425,12 @@ def _ite(I, c, a, b):
     return I.ite(I.z3bool(c), a, b)
 
 
+@reg('apply')
+def _apply(I, f, pack):
+    from .interp import APPLY
+    return Opq(APPLY(to_z3(f, U), to_z3(pack, U)))
+
+
 @reg('is_none')
 def _is_none(I, x):
     return I.equals(x, None)
@@ -591,6 +600,8 @@ def method_of(I, obj, name):
             return mk(lambda: obj.clear())
     if isinstance(obj, SMap):
         ks = kind_sort(obj.kkind)
+        if name == 'keys':
+            return mk(lambda: map_keys_list(I, obj))
         if name == 'get':
             def get(k, d=None):
                 kz = to_z3(k, ks)
@@ -672,6 +683,23 @@ def method_of(I, obj, name):
         if name == 'imag':
             return 0
     return None
+
+
+def map_keys_list(I, m):
+    """list(d.keys()) of a symbolic dict: a duplicate-free list enumerating exactly the key set
+    (assumed contract of dict iteration; the order is unspecified)."""
+    I.trusted.add('dict.keys(): duplicate-free enumeration of exactly the key set, order unspecified')
+    ks = SArr.fresh(m.kkind, 'keys')
+    I.assume(ks.n >= 0)
+    n = ks.n
+    arr = ks.leaves[0]
+    j, k = z3.Int(fresh_name('q')), z3.Int(fresh_name('q'))
+    x = z3.Const(fresh_name('qx'), kind_sort(m.kkind))
+    idx = z3.Function(fresh_name('keyidx'), kind_sort(m.kkind), z3.IntSort())
+    I.assume(z3.ForAll([j], z3.Implies(z3.And(0 <= j, j < n), z3.And(z3.Select(m.dom, z3.Select(arr, j)),
+                                                                    idx(z3.Select(arr, j)) == j))))
+    I.assume(z3.ForAll([x], z3.Implies(z3.Select(m.dom, x), z3.And(0 <= idx(x), idx(x) < n, z3.Select(arr, idx(x)) == x))))
+    return ks
 
 
 # ------------------------------------------------------------------ numpy model
